@@ -13,7 +13,7 @@ from ._pairs import V
 
 PID = "C17"
 LEVEL = "model_checking"
-WITNESSES = ["stress_reduced_growth_coefficient", "ks_strictly_between_0_and_1", "ks_full_stress", "et0_adjustment_switched_off", "cold_coefficient_partial", "heat_coefficient_zero", "gdd_clipped_low", "gdd_clipped_high",
+WITNESSES = ["late_season_rewatering_of_a_live_canopy", "stress_reduced_growth_coefficient", "ks_strictly_between_0_and_1", "ks_full_stress", "et0_adjustment_switched_off", "cold_coefficient_partial", "heat_coefficient_zero", "gdd_clipped_low", "gdd_clipped_high",
              "growth_curve_decay_stage", "decline_curve_reaches_zero", "inverse_checked", "fco2_above_1", "fco2_below_1", "fco2_season_reset_site", "fco2_overridden_sink_strength", "aeration_stress_active", "aeration_switched_off_crop", "growth_curve_starts_in_decay_stage", "fco2_overridden_water_productivity"]
 NONTRIVIAL = WITNESSES
 TOL = 1e-12
@@ -23,6 +23,11 @@ def scenarios(tier, seed=0):
     for name in A.catalogue_names():
         for fam in ("water_stress", "aeration", "temperature", "gdd", "canopy", "fco2"):
             yield {"crop": name, "family": fam, "fine": tier != "quick"}
+    # the decline curve as the MODEL applies it: drought starting before the senescence date and relieved by a storm after it (the
+    # late-season re-watering branch evaluates the decline curve with adjusted parameters)
+    cal = [n for n in A.calendar_crop_names() if n not in ("SugarCane", "Cassava")]
+    for name in (cal[::3] if tier == "quick" else cal):
+        yield {"crop": name, "family": "decline_run", "fine": tier != "quick"}
 
 
 def run(scn):
@@ -50,7 +55,35 @@ def run(scn):
             viol.append(V(clause, None, obs, exp, crop=name, family=fam, sig=[clause], **f))
 
     crop = Crop(name, planting_date="05/01")
-    if fam == "water_stress":
+    if fam == "decline_run":
+        from ..driver import run_plain, GX
+
+        sen, mat = int(crop.SenescenceCD), int(crop.MaturityCD)
+        starts = (sen - 40, sen - 25, sen - 10) if not fine else (sen - 50, sen - 40, sen - 30, sen - 25, sen - 15, sen - 10, sen - 5)
+        relief = (sen + 5, sen + 12, sen + 20) if not fine else (sen + 2, sen + 5, sen + 8, sen + 12, sen + 16, sen + 20, sen + 28)
+        for ds, rw in itertools.product(starts, relief):
+            if rw >= mat - 2 or ds < 5:
+                continue
+            dev = [[d, "D"] for d in range(ds, rw)] + [[rw, "S"], [rw + 1, "M"], [rw + 2, "M"]]
+            spec = A.catalogue_spec(name, word="showers", soil="ClayLoam", iwc="FC", dev=dev)
+            t, a, _ = run_plain(spec)
+            if a:
+                res["notes"].append("decline_run aborted: " + str(a.get("exc_type")))
+                continue
+            g = t["growth"]
+            dap, cc = g[:, GX["dap"]], g[:, GX["canopy_cover"]]
+            nodes += int((dap > 0).sum())
+            k = np.where(dap == rw + 1)[0]
+            if len(k) and cc[k[0]] > 0:
+                hit("late_season_rewatering_of_a_live_canopy")
+            for i in range(1, len(dap)):
+                if dap[i] > sen + 1 and dap[i - 1] > 0:
+                    edges += 1
+                    if cc[i] > cc[i - 1] + 1e-12:
+                        bad("simulated-canopy-non-increasing-in-the-decline-phase", {"day_after_planting": float(dap[i]), "canopy": float(cc[i]), "previous": float(cc[i - 1]), "drought_from": ds, "storm_on": rw, "senescence_day": sen},
+                            "non-increasing after the start of senescence")
+                        break
+    elif fam == "water_stress":
         taw = 150.0
         deps = np.arange(-20.0, 120.0 + 1e-9, 2.5 if fine else 5.0) / 100.0 * taw
         # ETadj (the ET0 adjustment switch) is an argument too: the crop's own value and both settings of the switch
